@@ -71,6 +71,10 @@ class VTopReader : public TopologyReader {
   }
 };
 
+// fault injection (FaultTF.tla): an exception leaves the reader / EvalConfiguration for frame g_fail_frame
+static int g_fail_frame = 0;
+static int g_fail_where = 0;   // 0 none, 1 read, 2 eval
+
 class VTrjReader : public TrajectoryReader {
  public:
   bool Open(const std::string &) override { return true; }
@@ -83,6 +87,10 @@ class VTrjReader : public TrajectoryReader {
     if (n > G.max_in_reader) G.max_in_reader = n;
     votca_verif_event(vsched::U_READ, this, 0);   // yield point inside the reader
     bool ok = false;
+    if (g_fail_where == 1 && G.pos < G.ktotal && G.pos + 1 - G.base == g_fail_frame) {
+      --G.in_reader;
+      throw std::runtime_error("verif: unexpected end of trajectory file");
+    }
     if (G.pos < G.ktotal) {
       ++G.pos;
       top.setStep(G.pos);
@@ -117,6 +125,7 @@ class App : public CsgApplication {
     void EvalConfiguration(Topology *top, Topology *) override {
       votca_verif_event(vsched::U_EVAL, this, 0);
       frame = top->getStep() - G.base;
+      if (g_fail_where == 2 && frame == g_fail_frame) throw std::runtime_error("verif: analysis failed");
       G.evalLog.emplace_back(getId(), frame);
       G.evalAbs.push_back(top->getStep());
       // every worker must analyse the frame on an equivalent topology (same beads, bonded interactions, exclusions)
@@ -247,6 +256,7 @@ struct RunResult {
   std::string error;
   std::vector<long> evalAbs;
   bool topo_differs = false;
+  int leftover = 0;   // worker threads still parked when Exec returned
 };
 
 static void print_run(const struct RunResult &r, std::ostream &out, bool with_steps);
@@ -255,6 +265,18 @@ static std::function<void(const struct RunResult &)> g_pass_printer;    // calle
 static int g_passes = 1;   // 2: Run() is called a second time on the same application object
 
 static RunResult collect(int rc, const std::string &err);
+static std::streambuf *g_old_cout = nullptr, *g_old_cerr = nullptr;
+static bool g_terminated = false;
+// an exception left a thread function: the C++ runtime ends the process here; report the run first
+static void on_terminate() {
+  if (g_old_cout) std::cout.rdbuf(g_old_cout);
+  if (g_old_cerr) std::cerr.rdbuf(g_old_cerr);
+  g_terminated = true;
+  RunResult r = collect(-2, "std::terminate");
+  if (g_abort_printer) g_abort_printer(r);
+  std::cout.flush();
+  _exit(0);
+}
 
 static RunResult run_once(int nw, int ktotal, int first_frame, long budget, bool ordered,
                           const std::vector<int> &script, int fallback, unsigned long seed, long begin = 0) {
@@ -270,6 +292,8 @@ static RunResult run_once(int nw, int ktotal, int first_frame, long budget, bool
   S.snapshot = [&]() { return app.snapshot(nw); };
   std::streambuf *old = std::cout.rdbuf();
   std::streambuf *olde = std::cerr.rdbuf();
+  g_old_cout = old;
+  g_old_cerr = olde;
   S.on_abort = [&]() {
     // deadlock / script mismatch: every thread is parked; report and leave the process
     std::cout.rdbuf(old);
@@ -295,6 +319,17 @@ static RunResult run_once(int nw, int ktotal, int first_frame, long budget, bool
   std::cout.rdbuf(sink.rdbuf());
   std::cerr.rdbuf(esink.rdbuf());
   int rc = app.Exec((int)argv.size(), argv.data());
+  if (int left = S.unfinished()) {
+    // Exec came back (an exception reached the main thread) while worker threads are still parked in the scheduler:
+    // nothing can be run in this process any more (they would wake up on the next run's batons); report and leave
+    std::cout.rdbuf(old);
+    std::cerr.rdbuf(olde);
+    RunResult r = collect(rc, esink.str());
+    r.leftover = left;
+    if (g_abort_printer) g_abort_printer(r);
+    std::cout.flush();
+    _exit(0);
+  }
   if (g_passes == 2 && rc == 0) {
     // the same application object runs a second time (object reuse): report the first pass, then Run() again
     std::cout.rdbuf(old);
@@ -346,8 +381,8 @@ static void print_run(const RunResult &r, std::ostream &out, bool with_steps) {
   for (auto &ch : err)
     if (ch == '"' || ch == '\n' || ch == '\\') ch = ' ';
   out << "{\"e\":\"end\",\"rc\":" << r.rc << ",\"deadlock\":" << (r.deadlock ? "true" : "false")
-      << ",\"mismatch\":" << (r.mismatch ? "true" : "false") << ",\"bad_unlock\":" << (r.bad ? "true" : "false")
-      << ",\"max_in_reader\":" << r.max_rdr << ",\"max_in_merge\":" << r.max_merge << ",\"topo_differs\":" << (r.topo_differs ? "true" : "false") << ",\"steps\":" << r.steps.size()
+      << ",\"terminated\":" << (g_terminated ? "true" : "false") << ",\"mismatch\":" << (r.mismatch ? "true" : "false") << ",\"bad_unlock\":" << (r.bad ? "true" : "false")
+      << ",\"max_in_reader\":" << r.max_rdr << ",\"max_in_merge\":" << r.max_merge << ",\"topo_differs\":" << (r.topo_differs ? "true" : "false") << ",\"leftover\":" << r.leftover << ",\"steps\":" << r.steps.size()
       << ",\"evalAbs\":[";
   for (size_t i = 0; i < r.evalAbs.size(); ++i) out << (i ? "," : "") << r.evalAbs[i];
   out << "],\"error\":\"" << err << "\"}" << std::endl;
@@ -392,6 +427,7 @@ int main(int argc, char **argv) {
     return do_run_line(in);
   }
   if (cmd == "batch") {
+    std::set_terminate(on_terminate);
     std::string line;
     while (std::getline(std::cin, line)) {
       std::istringstream in(line);
@@ -419,6 +455,22 @@ int main(int argc, char **argv) {
         RunResult r = run_once(nw, k, 0, budget, ordered != 0, {}, 1, std::stoul(arg));
         g_passes = 1;
         print_run(r, std::cout, true);
+      }
+      if (w == "fault") {
+        // "fault nw k budget ordered seed f read|eval": random schedule, an exception for frame f
+        int nw, k, ordered, f;
+        long budget;
+        unsigned long seed;
+        std::string at;
+        in >> nw >> k >> budget >> ordered >> seed >> f >> at;
+        std::cout << "{\"e\":\"begin\",\"nw\":" << nw << ",\"k\":" << k << ",\"b\":" << budget << ",\"ord\":"
+                  << (ordered ? "true" : "false") << ",\"f\":" << f << ",\"at\":\"" << at << "\",\"seed\":" << seed << "}\n";
+        g_abort_printer = [](const RunResult &r) { print_run(r, std::cout, false); };
+        g_fail_frame = f;
+        g_fail_where = at == "read" ? 1 : 2;
+        RunResult r = run_once(nw, k, 0, budget, ordered != 0, {}, 1, seed);
+        g_fail_where = 0;
+        print_run(r, std::cout, false);
       }
       if (w == "seek") {
         int ktotal, ff, nw, ordered;
